@@ -24,7 +24,10 @@ SYNC_RULE = ("sync stream: per case a fresh regtest canister (threshold 1-4, def
              "source (complete with 0-3 mined transaction-valid blocks on random parents plus bad elements at random positions: garbage, truncated, duplicate, orphan/redelivered, "
              "bad merkle root / duplicated last transaction, old timestamp, wrong bits, stable-only parent; partial replies split into 1+k pages, k in {0,1,2,3,5}; rejects; "
              "announced headers incl. garbage/duplicate/invalid), pre/post_upgrade with or without a threshold argument, set_config flips, gated endpoint calls with chosen "
-             "attached cycles and instruction counts, send_transaction with exact/extended/truncated/bit-flipped/garbage payloads, and the ledger stream's query batch. "
+             "attached cycles and instruction counts (both spellings of every network), send_transaction with exact/extended/truncated/bit-flipped/garbage payloads, and the ledger stream's query batch. "
+             "Blocks with trailing bytes and header+00+junk blobs (prefix decoding); orphans whose parent was only announced; announced chains on fork points. "
+             "Directed announced-fork family at a fixed case number (sync flag on; a fork is announced ahead of its blocks, its first blocks arrive next to existing siblings, "
+             "more headers follow until the gap exceeds 2; the gate is asked through every endpoint after each step). "
              "A case is distinct by the hash of its message kinds and budgets.")
 
 PROPS = {
